@@ -2,6 +2,7 @@ package main
 
 import (
 	"fmt"
+	"os"
 	"go/types"
 	"strings"
 )
@@ -35,6 +36,7 @@ type Obligation struct {
 	Kind   string // "ensures", "requires-at-call", "invariant", "nopanic", "frame", "cover", "planted"
 	// for cover obligations: sat expected
 	ExpectSat bool
+	QueryBytes int
 }
 
 // Exec builds the verification conditions for one unit (function under contract).
@@ -73,12 +75,20 @@ type Exec struct {
 	sentinels       map[string]types.Type
 	entryIndex      int
 	topFrame        *frame
+	curReach        string
+	qrec            map[string]*qRecord
+}
+
+// qRecord collects the slice accesses indexed directly by a quantified variable.
+type qRecord struct {
+	seen map[string]bool
+	acc  [][2]string // (array ref term, offset term)
 }
 
 func newExec(w *World, u *Unit) *Exec {
 	ex := &Exec{w: w, unit: u, declared: map[string]string{}, keySort: map[string]string{}, defCache: map[string]string{},
 		used: map[string]bool{}, strs: map[string]string{}, loopMods: map[string]map[string]bool{}, loopAll: map[string]bool{}, oblCount: map[string]int{},
-		cellFuncs: map[string]*FuncInfo{}, calledContracts: map[*Contract]bool{}, coverAcc: map[string][]string{}, sentinels: map[string]types.Type{}}
+		cellFuncs: map[string]*FuncInfo{}, calledContracts: map[*Contract]bool{}, coverAcc: map[string][]string{}, sentinels: map[string]types.Type{}, qrec: map[string]*qRecord{}, curReach: "true"}
 	ex.baseInit = &Base{id: 0}
 	ex.declare("str_empty", sStr)
 	return ex
@@ -112,11 +122,12 @@ func (ex *Exec) freshConst(prefix, sort string) string {
 	return n
 }
 
+// assume adds a fact that holds whenever the current program point is reached.
 func (ex *Exec) assume(f string) {
 	if f == "true" || ex.pure > 0 || ex.discover {
 		return
 	}
-	ex.items = append(ex.items, Item{Assume: f})
+	ex.items = append(ex.items, Item{Assume: imp(ex.curReach, f)})
 }
 
 // name binds a term to a fresh constant (no-op in pure mode or for small terms).
@@ -135,6 +146,9 @@ func (ex *Exec) nameMin(prefix, term, sort string, min int) string {
 	}
 	if ex.pure > 0 {
 		if len(term) > 4<<20 {
+			if os.Getenv("GOVC_DEBUG") != "" {
+				fmt.Fprintf(os.Stderr, "BIGTERM %s: %s\n ... %s\n", prefix, term[:1500], term[len(term)-300:])
+			}
 			panic(unsupported("specification term exceeds the VC size cap (4 MiB)"))
 		}
 		return term
@@ -224,6 +238,13 @@ func (ex *Exec) defaultTerm(key string, b *Base) string {
 		}
 	case 2:
 		t = ite(b.cond, ex.defaultTerm(key, b.a), ex.defaultTerm(key, b.b))
+		if len(t) > 200 && !ex.discover {
+			// bind the merged default to a name (a conservative definition, valid anywhere in the VC)
+			n := fmt.Sprintf("Hm%d!%s", b.id, sanitize(key))
+			ex.declare(n, ex.keySort[key])
+			ex.preAssume = append(ex.preAssume, eq(n, t))
+			t = n
+		}
 	}
 	ex.defCache[ck] = t
 	return t
@@ -250,6 +271,14 @@ func wfFact(key, term, top string) string {
 		isRef = true
 	}
 	if !isRef {
+		if rg, ok := intLeafRange[key]; ok {
+			switch kind {
+			case "F", "C":
+				return "(forall ((r!w Int)) (! (and (<= " + rg[0] + " (select " + term + " r!w)) (<= (select " + term + " r!w) " + rg[1] + ")) :pattern ((select " + term + " r!w))))"
+			case "E":
+				return "(forall ((r!w Int) (i!w Int)) (! (and (<= " + rg[0] + " (select (select " + term + " r!w) i!w)) (<= (select (select " + term + " r!w) i!w) " + rg[1] + ")) :pattern ((select (select " + term + " r!w) i!w))))"
+			}
+		}
 		return ""
 	}
 	switch kind {
@@ -265,6 +294,9 @@ func wfFact(key, term, top string) string {
 
 // refLeafKeys records which heap keys hold references (pointers, maps, channels).
 var refLeafKeys = map[string]bool{}
+
+// intLeafRange records the value range of heap keys holding sized integers.
+var intLeafRange = map[string][2]string{}
 
 func (ex *Exec) heapGet(st *State, key, sort string) string {
 	ex.registerKey(key, sort)
@@ -424,6 +456,12 @@ func (ex *Exec) addrLeaves(p Val) []leafAddr {
 		}
 		if l.Kind == kRef || l.Kind == kSlArr {
 			refLeafKeys[a.key] = true
+		}
+		if l.Kind == kInt {
+			if bits, _, ok := intBits(l.T); ok && bits <= 32 {
+				lo, hi, _ := intRange(l.T)
+				intLeafRange[a.key] = [2]string{lo, hi}
+			}
 		}
 		out[j] = a
 	}
@@ -586,6 +624,14 @@ func sliceElemType(t types.Type) types.Type {
 // sliceElemLeaf reads leaf j of element i (relative) of slice s.
 func (ex *Exec) sliceLoad(st *State, s Val, i string) Val {
 	et := sliceElemType(s.T)
+	if rec, ok := ex.qrec[i]; ok {
+		// the index is a quantified variable: remember the access so the quantifier can be oriented on it
+		key := s.L[0] + "|" + s.L[1]
+		if !rec.seen[key] {
+			rec.seen[key] = true
+			rec.acc = append(rec.acc, [2]string{s.L[0], s.L[1]})
+		}
+	}
 	p := elemPtr(et, s.L[0], at(s.L[1], i))
 	return ex.load(st, p)
 }
